@@ -62,8 +62,9 @@ def matrix_descs(ctx, sym, ferm, kind="general"):
                         if d["charge"] != e or not d["sectors"]:
                             continue
                         for dtype in ("float64", "complex128"):
-                            idx += 1
-                            yield dict(d, fill=("herm", idx), dtype=dtype)
+                            for fill in ("herm", "herm-anti", "herm-diag"):
+                                idx += 1
+                                yield dict(d, fill=(fill, idx), dtype=dtype)
 
 
 def fused_matrix_descs(ctx, sym, ferm):
